@@ -50,6 +50,25 @@ def jobs_for(ctx, n):
     return jobs
 
 
+def machine_opened(mcases):
+    """For every ordered request: files opened by the batch machine (concurrent, T = file_parallelism) resp. the chain (sync, async) after k = 1..len pulls."""
+    head = ["Require Import Sedpack.Model.Base Sedpack.Generated.GenIter Sedpack.Model.Iter Sedpack.Proofs.IterProofs Sedpack.Proofs.ChainProofs Sedpack.Proofs.BatchProofs.",
+            "Definition rd (sizes : list nat) (p : nat) : list nat := repeat 0 (nth p sizes 0).",
+            "Definition bo (src : @source nat) (s0 : s_state src) (sizes : list nat) (T n : nat) : list nat :=",
+            "  map (fun k => match after (batch_source nat nat src (rd sizes) T) k (batch_init nat nat src s0) with Some s => b_opened nat nat src s | None => 0 end) (seq 1 n).",
+            "Definition co (src : @source nat) (s0 : s_state src) (sizes : list nat) (n : nat) : list nat :=",
+            "  map (fun k => match after (chain_source nat nat src (rd sizes)) k (chain_init nat nat src s0) with Some s => c_opened nat nat src s | None => 0 end) (seq 1 n)."]
+    lines = []
+    for _one, q, seen, sizes in mcases:
+        n = len(sizes)
+        src, s0 = (f"(cycle_source (seq 0 {n}) 0)", "0") if q["repeat"] else ("list_source", f"(seq 0 {n})")
+        if q["iface"] == "concurrent":
+            lines.append(f"Eval vm_compute in bo {src} {s0} {common.clist(sizes)} {q['file_parallelism']} {len(seen)}.")
+        else:
+            lines.append(f"Eval vm_compute in co {src} {s0} {common.clist(sizes)} {len(seen)}.")
+    return common.coq_answers(common.coq_eval(PID, "machines", "\n".join(head + lines) + "\n"))
+
+
 def run(ctx):
     broken = []
     tr = pygen.regenerate(REPO, COQ / "Generated", only=GENS)
@@ -64,7 +83,7 @@ def run(ctx):
             broken.append(b)
     jobs = jobs_for(ctx, ctx.scale(6, 60))
     res = iterlib.run_jobs(jobs, timeout=40)
-    runs, nontrivial, worst = 0, set(), {}
+    runs, nontrivial, worst, mcases = 0, set(), {}, []
     for job, r in zip(jobs, res):
         if "build_error" in r:
             ctx.report("harness", r["build_error"], {"job": job}, found_input=False)
@@ -87,6 +106,8 @@ def run(ctx):
             if len(o["out"]) != want_n:
                 ctx.report("take-short", f"{q}: asked for {q['take']} examples, got {len(o['out'])}", {"job": one})
             nontrivial.add(json.dumps([q["iface"], q["shuffle"], q["file_parallelism"], q["take"], q["repeat"], nshards]))
+            if q["shuffle"] == 0 and q["iface"] in ("sync", "concurrent", "async") and o.get("opened_at_yield") and q.get("file_parallelism"):
+                mcases.append((one, q, o["opened_at_yield"], [len(sh[0]) for sh in ref["shards"]]))
             for k, opened in enumerate(o.get("opened_at_yield", []), 1):
                 bd = bound(q, k, min_ex)
                 key = f"{q['iface']}:{'shuffled' if q['shuffle'] else 'ordered'}"
@@ -96,6 +117,24 @@ def run(ctx):
                                f"{q['iface']} shuffle={q['shuffle']} T={q['file_parallelism']} repeat={q['repeat']}: {opened} shard files opened when example {k} was handed over; "
                                f"bound from buffers alone is {bd} ({nshards} shards in the split)", {"job": one, "opened_at_yield": o["opened_at_yield"]})
                     break
+    # the ordered readers as machines (Proofs/BatchProofs.v, ChainProofs.v): the exact number of files the machine has opened when the
+    # k-th example is handed over, on the real shard sizes, is an upper envelope for what the spy saw
+    mdis = 0
+    if not any(tr.values()) and mcases:
+        try:
+            rc, log = common.coq_make(["Proofs/BatchProofs.vo"])
+            if rc:
+                raise Broken("Proofs/BatchProofs.v no longer compiles", log[-2000:])
+            for (one, q, seen, _sz), mo in zip(mcases, machine_opened(mcases)):
+                for k, (op, m) in enumerate(zip(seen, mo), 1):
+                    if op > m:
+                        mdis += 1
+                        ctx.report(f"read-ahead-exceeds-model:{q['iface']}:ordered",
+                                   f"{q['iface']} shuffle=0 T={q['file_parallelism']} repeat={q['repeat']}: {op} shard files opened when example {k} was handed over; "
+                                   f"the reader as specified has opened {m} by then", {"job": one, "opened_at_yield": seen, "machine": list(mo)})
+                        break
+        except Broken as b:
+            broken.append(b)
     dis, ncomb = 0, 0
     if not any(tr.values()):
         try:
@@ -112,18 +151,19 @@ def run(ctx):
         ctx.report(f"broken:{b.what}", b.what, {"unchecked": b.what, "detail": b.detail[-3000:]}, found_input=False)
     ctx.sample(jobs[0]["requests"][1])
     ctx.coverage.update({
-        "obligations": proof["obligations"] if proof else 5, "discharged": proof["discharged"] if proof else 0,
+        "obligations": proof["obligations"] if proof else 9, "discharged": proof["discharged"] if proof else 0,
         "theorems": proof["theorems"] if proof else [],
         "checker_cmd": "make -C coq Proofs/IterProofs.vo Proofs/LazyPoolBound.vo && coqc -Q coq Sedpack coq/Properties/C14.v (Print Assumptions under each theorem)",
         "trusted_base": common.TRUSTED_BASE_COMMON + [
             "theorems bound each combinator over arbitrary (also endless) sources; the per-interface composition bound used by the implementation oracle (e.g. 3T+2+k for the shuffled concurrent reader) "
-            "is derived by hand from them and checked on runs with a shard-open spy (audit hook), not proved",
+            "is derived by hand from them and checked on runs with a shard-open spy (audit hook), not proved; the ordered readers are machines with proved bounds (batch machine = the generated composition on finite lists) "
+            "whose exact open counts on the real shard sizes are compared with the spy at every yield",
             "pull counts of the shuffle-buffer / round-robin machines are compared with the real generators at every yield",
             "Rust and tf.data read-ahead are not observed by the spy (native opens): oracle only"],
         "evaluations": runs + ncomb, "distinct_nontrivial": len(nontrivial) + ncomb,
         "rule": "take k in {1,2,5,12,25} examples from finite and repeating streams over splits of 6..20 shards, interface x shuffle x file_parallelism, slow consumer (4 ms per example), "
                 "counting shard files opened at every yield; distinct by (interface, shuffle, T, k, repeat, shards)",
-        "worst_opened_minus_yielded": worst, "pipeline_runs": runs, "combinator_cases": ncomb, "model_vs_impl_disagreements": dis,
+        "worst_opened_minus_yielded": worst, "ordered_requests_against_machine": len(mcases), "ordered_requests_exceeding_machine": mdis, "pipeline_runs": runs, "combinator_cases": ncomb, "model_vs_impl_disagreements": dis,
         "traces_validated_against_impl": ncomb - dis,
     })
     ctx.assumptions += ["every shard holds at least one example (C10)"]
